@@ -64,12 +64,27 @@ func (bi *BasmInstance) bodyMacros(body *bmline.BasmBody) error {
 				}
 			}
 			body.Lines = append(body.Lines[:i], append(macroLines, body.Lines[i+1:]...)...)
-			i += len(macroLines)
+			// Go on from the first expanded line: the line that followed the call is
+			// then not skipped, and a macro used inside the body is expanded too
+			i--
 		}
 	}
 	return nil
 }
 
 func (bi *BasmInstance) expandMacro(macro *BasmMacro, line *bmline.BasmLine) []*bmline.BasmLine {
-	return macro.macroBody.Lines
+	// Every expansion gets its own copy of the body: the following passes
+	// rewrite lines in place
+	result := make([]*bmline.BasmLine, len(macro.macroBody.Lines))
+	for i, macroLine := range macro.macroBody.Lines {
+		result[i] = macroLine.Copy()
+	}
+	// A label in front of the macro call denotes the first instruction of the expansion
+	if symbols := line.GetMeta("symbol"); symbols != "" && len(result) > 0 {
+		if own := result[0].GetMeta("symbol"); own != "" {
+			symbols = symbols + ":" + own
+		}
+		result[0].BasmMeta = result[0].SetMeta("symbol", symbols)
+	}
+	return result
 }
